@@ -1,7 +1,7 @@
 (** extraction of the C01 model: specifications (Z) and the as-is word-level models *)
 Require Import FastZ.
 From Dashu Require Import Base.Prelude Base.Words Int.RingSpec Int.RingAdd Int.RingMul Int.RingOps
-  Int.RingToomW Int.DivWordModel Int.DivWordInst Int.RingMulW Int.RingOpsW Int.RingScratch.
+  Int.RingToomW Int.DivWordModel Int.DivWordInst Int.RingMulW Int.RingOpsW Int.RingScratch Int.RingPowW Int.RingPrim.
 From DashuGen Require Import SignTables Params MulMemory.
 Extraction "model.ml"
   signed sign_of value to_words
@@ -18,4 +18,6 @@ Extraction "model.ml"
   x2by1 toom3x_same_len add_signed_mul_same_len_w add_signed_mul_w multiply_w sqr_w
   simple_add_signed_mul_w karatsuba_add_signed_mul_w toom3_add_signed_mul_w
   repr_mul_w repr_sqr_w ibig_mul_asis_w ubig_cubic_asis_w ibig_cubic_asis_w
-  kernel_need kernel_alloc mul_need sqr_need mul_memory_words_exact sqr_memory_words.
+  kernel_need kernel_alloc mul_need sqr_need mul_memory_words_exact sqr_memory_words
+  repr_pow_w ubig_pow_w ibig_pow_w
+  ubig_prim ibig_prim ibig_from_unsigned ibig_from_signed.
